@@ -38,6 +38,11 @@ func ValidateSyncCommitteeSubnet(ctx context.Context, subnet uint64, syncCommMes
 		return nil, GossipValidatorResult{IGNORE, err}
 	}
 
+	if epc.CurrentSyncCommittee == nil {
+		// e.g. a pre-altair chain entry: there is no sync committee to validate against (yet)
+		return nil, GossipValidatorResult{IGNORE, fmt.Errorf("no sync committee available at slot %d", syncCommMessage.Slot)}
+	}
+
 	// [REJECT] The subnet_id is valid for the given validator,
 	// i.e. subnet_id in compute_subnets_for_sync_committee(state, sync_committee_message.validator_index).
 	// Note this validation implies the validator is part of the broader current sync committee along with the correct subcommittee.
